@@ -13,6 +13,7 @@ import (
 	"go/token"
 	"path/filepath"
 	"strconv"
+	"strings"
 )
 
 var builtins = map[string]bool{"len": true, "cap": true, "append": true, "make": true, "new": true, "panic": true, "string": true,
@@ -133,6 +134,54 @@ func (t *translator) helperCallees(fd *ast.FuncDecl, fs fnSpec) []fnSpec {
 				}
 			}
 		}
+		// a parameter the helper only passes on to a function whose table entry gives that parameter another Go type
+		// (a path passed as a string) is translated at that type
+		d := declOf[name]
+		params := map[string]bool{}
+		if d.Type.Params != nil {
+			for _, f := range d.Type.Params.List {
+				for _, n := range f.Names {
+					params[n.Name] = true
+				}
+			}
+		}
+		ast.Inspect(d.Body, func(n ast.Node) bool {
+			cc, isCall := n.(*ast.CallExpr)
+			if !isCall {
+				return true
+			}
+			callee := ""
+			switch f := cc.Fun.(type) {
+			case *ast.Ident:
+				callee = f.Name
+			case *ast.SelectorExpr:
+				callee = f.Sel.Name
+			}
+			for _, r := range t.a.funcs {
+				rn := r.name
+				if i := strings.LastIndex(rn, "."); i >= 0 {
+					rn = rn[i+1:]
+				}
+				if rn != callee || len(r.ptypes) == 0 || declOf[r.name] == nil || declOf[r.name].Type.Params == nil {
+					continue
+				}
+				k := 0
+				for _, f := range declOf[r.name].Type.Params.List {
+					for _, pn := range f.Names {
+						if pt, has := r.ptypes[pn.Name]; has && k < len(cc.Args) {
+							if id, isId := cc.Args[k].(*ast.Ident); isId && params[id.Name] {
+								if h.ptypes == nil {
+									h.ptypes = map[string]string{}
+								}
+								h.ptypes[id.Name] = pt
+							}
+						}
+						k++
+					}
+				}
+			}
+			return true
+		})
 		out = append(out, h)
 	}
 	ast.Inspect(fd.Body, func(n ast.Node) bool {
@@ -254,6 +303,10 @@ func (t *translator) inlineHelpers(fd *ast.FuncDecl, fs fnSpec) {
 	fd.Body.List = normaliseWhile(in.list(fd.Body.List, nres(fd.Type)))
 	for _, l := range lits {
 		l.Body.List = normaliseWhile(in.list(l.Body.List, nres(l.Type)))
+	}
+	normaliseRange(fd.Body.List)
+	for _, l := range lits {
+		normaliseRange(l.Body.List)
 	}
 }
 
@@ -677,7 +730,7 @@ func retToAssign(l []ast.Stmt, res []*ast.Ident) ([]ast.Stmt, bool) {
 			out = append(out, s)
 		}
 	}
-	return out, len(res) == 0 || false
+	return out, len(res) == 0 || terminates(out) // a list that ends in panic(..) needs no value
 }
 
 // ---- the rewriting of a statement list
@@ -812,6 +865,39 @@ func (in *inliner) callStmt(h *ast.FuncDecl, c *ast.CallExpr, nres int) ([]ast.S
 		b2, ok = retToAssign(append(body, &ast.ReturnStmt{}), res)
 		if !ok {
 			return nil, nil, false
+		}
+	}
+	// a body with ONE return, at its end: the result variables are defined there (no `var r T`, which would ask for a
+	// zero value of T: oracle types have none)
+	if len(res) > 0 && len(b2) > 0 {
+		nested := false
+		for _, st := range b2[:len(b2)-1] {
+			ast.Inspect(st, func(n ast.Node) bool {
+				if as, ok := n.(*ast.AssignStmt); ok {
+					for _, l := range as.Lhs {
+						if id, isId := l.(*ast.Ident); isId {
+							for _, r := range res {
+								if r.Name == id.Name {
+									nested = true
+								}
+							}
+						}
+					}
+				}
+				return true
+			})
+		}
+		if last, ok := b2[len(b2)-1].(*ast.AssignStmt); ok && !nested && last.Tok == token.ASSIGN && len(last.Lhs) == len(res) {
+			isRes := true
+			for i, l := range last.Lhs {
+				if id, isId := l.(*ast.Ident); !isId || id.Name != res[i].Name {
+					isRes = false
+				}
+			}
+			if isRes {
+				last.Tok = token.DEFINE
+				decls = nil
+			}
 		}
 	}
 	out := append(append(decls, binds...), b2...)
@@ -1020,4 +1106,131 @@ func normaliseWhile(l []ast.Stmt) []ast.Stmt {
 		}
 	}
 	return out
+}
+
+// ---- (d) `for i := range xs { .. xs[i] .. }` where i occurs only as the index of reads of xs and the body does not
+// assign xs IS the value loop `for _, v := range xs { .. v .. }` (the structural Fixpoint instead of the fuel loop)
+func normaliseRange(l []ast.Stmt) {
+	for _, s := range l {
+		switch x := s.(type) {
+		case *ast.BlockStmt:
+			normaliseRange(x.List)
+		case *ast.IfStmt:
+			normaliseRange(x.Body.List)
+			if e, ok := x.Else.(*ast.BlockStmt); ok {
+				normaliseRange(e.List)
+			} else if e, ok := x.Else.(*ast.IfStmt); ok {
+				normaliseRange([]ast.Stmt{e})
+			}
+		case *ast.ForStmt:
+			normaliseRange(x.Body.List)
+		case *ast.RangeStmt:
+			normaliseRange(x.Body.List)
+			ki, isK := x.Key.(*ast.Ident)
+			xs, isX := x.X.(*ast.Ident)
+			if !isK || !isX || x.Value != nil || x.Tok != token.DEFINE || ki.Name == "_" {
+				continue
+			}
+			ok := true
+			reads := map[*ast.IndexExpr]bool{}
+			inRead := map[*ast.Ident]bool{}
+			ast.Inspect(x.Body, func(n ast.Node) bool {
+				switch v := n.(type) {
+				case *ast.IndexExpr:
+					a, isA := v.X.(*ast.Ident)
+					b, isB := v.Index.(*ast.Ident)
+					if isA && isB && a.Name == xs.Name && b.Name == ki.Name {
+						reads[v] = true
+						inRead[a], inRead[b] = true, true
+					}
+				case *ast.AssignStmt:
+					for _, lh := range v.Lhs {
+						if ix, isIx := lh.(*ast.IndexExpr); isIx {
+							if a, isA := ix.X.(*ast.Ident); isA && a.Name == xs.Name {
+								ok = false
+							}
+						}
+						if a, isA := lh.(*ast.Ident); isA && (a.Name == xs.Name || a.Name == ki.Name) {
+							ok = false
+						}
+					}
+				case *ast.UnaryExpr:
+					if v.Op == token.AND {
+						ok = false
+					}
+				case *ast.FuncLit:
+					ok = false
+				}
+				return true
+			})
+			ast.Inspect(x.Body, func(n ast.Node) bool {
+				if id, isId := n.(*ast.Ident); isId && !inRead[id] && (id.Name == ki.Name || id.Name == xs.Name) {
+					ok = false // i used otherwise, or xs used otherwise (len(xs), append(xs, ..), passed on)
+				}
+				return true
+			})
+			if !ok || len(reads) == 0 {
+				continue
+			}
+			inlineCounter++
+			vn := "v''h" + strconv.Itoa(inlineCounter)
+			replaceReads(x.Body, reads, vn)
+			x.Key, x.Value = ast.NewIdent("_"), ast.NewIdent(vn)
+		}
+	}
+}
+
+func replaceReads(n ast.Node, reads map[*ast.IndexExpr]bool, vn string) {
+	fix := func(e ast.Expr) ast.Expr {
+		if ix, ok := e.(*ast.IndexExpr); ok && reads[ix] {
+			return ast.NewIdent(vn)
+		}
+		return e
+	}
+	ast.Inspect(n, func(m ast.Node) bool {
+		switch v := m.(type) {
+		case *ast.BinaryExpr:
+			v.X, v.Y = fix(v.X), fix(v.Y)
+		case *ast.UnaryExpr:
+			v.X = fix(v.X)
+		case *ast.ParenExpr:
+			v.X = fix(v.X)
+		case *ast.CallExpr:
+			v.Fun = fix(v.Fun)
+			for i := range v.Args {
+				v.Args[i] = fix(v.Args[i])
+			}
+		case *ast.SelectorExpr:
+			v.X = fix(v.X)
+		case *ast.IndexExpr:
+			v.X, v.Index = fix(v.X), fix(v.Index)
+		case *ast.AssignStmt:
+			for i := range v.Rhs {
+				v.Rhs[i] = fix(v.Rhs[i])
+			}
+		case *ast.ReturnStmt:
+			for i := range v.Results {
+				v.Results[i] = fix(v.Results[i])
+			}
+		case *ast.IfStmt:
+			v.Cond = fix(v.Cond)
+		case *ast.ExprStmt:
+			v.X = fix(v.X)
+		case *ast.ValueSpec:
+			for i := range v.Values {
+				v.Values[i] = fix(v.Values[i])
+			}
+		case *ast.SliceExpr:
+			v.X = fix(v.X)
+		case *ast.StarExpr:
+			v.X = fix(v.X)
+		case *ast.KeyValueExpr:
+			v.Value = fix(v.Value)
+		case *ast.CompositeLit:
+			for i := range v.Elts {
+				v.Elts[i] = fix(v.Elts[i])
+			}
+		}
+		return true
+	})
 }
